@@ -197,6 +197,39 @@ def run(ctx):
         ctx.case(key=("archive", h["label"]))
     ctx.evaluations += nsnap
     ctx.obligation("oracle:archive histories produced >= 60 restored-vs-live snapshot comparisons", nsnap >= 60, str(nsnap))
+    # independence through every Python handle (raw bytes) + raw back pointers of the derived simulation
+    import c17_handles
+    nh, hf = c17_handles.run(rebound, gen)
+    ctx.evaluations += nh
+    ctx.obligation("oracle:handle sweep ran (>= 400 pointer / edit checks on simulations with 1-4 variation sets)", nh >= 400, str(nh))
+    fails += hf
+    # model vs library on the ADDRESSES the reader writes: Coq reader + regenerated fix-up loops + Coq writer == save(restored),
+    # particles and var_config fields compared unmasked, addr = addressof(restored)
+    rcases, keep_alive = c17_handles.relink_cases(rebound, gen)
+    b0 = gen.save_bytes(rebound, rebound.Simulation())
+    rjobs = []
+    for c0 in range(0, len(rcases), 2):
+        body = ("From Coq Require Import NArith List.\nFrom RV Require Import C05.Model C05.Run C17.Relink.\nImport ListNotations.\n"
+                "Open Scope N_scope.\nDefinition b0 : list N := %s.\n" % c05h.coq_list(b0))
+        terms = []
+        for j, (lab, b, rb, addr) in enumerate(rcases[c0:c0 + 2]):
+            body += "Definition s%d : list N := %s.\nDefinition r%d : list N := %s.\n" % (j, c05h.coq_list(b), j, c05h.coq_list(rb))
+            terms.append("relink_corr b0 s%d r%d %d" % (j, j, addr))
+        body += "Eval vm_compute in (bad_idx [%s]).\n" % "; ".join(terms)
+        rjobs.append(("c17_relink_%d" % (c0 // 2), body))
+    rbad, rok = [], True
+    for (name, ok, out), c0 in zip(vlib.coq_eval_many(rjobs, timeout=600), range(0, len(rcases), 2)):
+        bad = vlib.parse_coq_list_nat(out) if ok else None
+        if bad is None:
+            rok = False
+            ctx.obligation("correspondence:C17:" + name, False, out[-1500:])
+        else:
+            rbad += [c0 + k for k in bad]
+    del keep_alive
+    ctx.traces += len(rcases) if rok else 0
+    ctx.obligation("correspondence:C17 Coq reader + regenerated fix-up loops + Coq writer == library save(restored) with particles and "
+                   "var_config UNMASKED (actual addresses) on %d copies / restored simulations with 1-4 variation sets" % len(rcases),
+                   rok and not rbad and len(rcases) >= 6, "mismatching: %s" % [rcases[k][0] for k in rbad[:6]])
     nanp = c17_lib.nan_probe(rebound)
     szp = c17_lib.signed_zero_probe(rebound)
     ctx.obligation("oracle:NaN / signed-zero probes ran", "particle_x_nan_sim_eq_copy" in nanp and "particle_z_pm0_sim_eq_copy" in szp, str((nanp, szp))[:300])
